@@ -1,5 +1,6 @@
 import QipVerif.Lemmas.SimPure
 import QipVerif.Lemmas.SimShare
+import QipVerif.Lemmas.SimPulse
 import QipVerif.Lemmas.GridStep
 /-!
 # C16 — queries, transformations and simulations are pure and repeatable
@@ -280,6 +281,99 @@ theorem C16_counterexample_noise_rewrites :
     (relaxUse cfgCurrent ⟨.scalar 1, .scalar 1⟩ 3).2 = .ok ([some 1, some 1, some 1], [some 1, some 1, some 1]) ∧
     (relaxUse cfgFixed (relaxUse cfgFixed ⟨.scalar 1, .scalar 1⟩ 2).1 3).2 =
       .ok ([some 1, some 1, some 1], [some 1, some 1, some 1]) := by
+  decide
+
+/-! ## The pulses a processor holds under noisy evaluation (pulse objects with their noise-element LISTS as cells) -/
+
+/-- the code as it is: `Processor.get_noisy_pulses` passes `deepcopy(self.pulses)`, `process_noise` deep-copies again -/
+def pcfgCurrent : PCfg := { procCopy := true, noiseCopy := .deep }
+/-- both copies replaced ("the other site copies anyway"): `self.pulses` itself, per-pulse `copy.copy` -/
+def pcfgShared : PCfg := { procCopy := false, noiseCopy := .shallow }
+
+/-- **noisy_pulses_unchanged.** If a deep copy is made somewhere between `Processor.pulses` and the noise objects
+(in `get_noisy_pulses` or in `process_noise`), then after ANY history of noisy evaluations (`get_noisy_pulses`,
+`get_qobjevo(noisy=True)`, `run_state`, with or without device noise) on one processor carrying ANY noise objects
+(`ControlAmpNoise`, `RandomNoise`, `RelaxationNoise`, `DecoherenceNoise`, `ZZCrossTalk`, user subclasses appending to
+any pulse or to `systematic_noise`; exceptions included): the processor holds the same pulse objects, and every pulse
+object that existed — ideal element and the CONTENTS of its `coherent_noise` / `lindblad_noise` lists — has the value
+it had. -/
+theorem noisy_pulses_unchanged (cfg : PCfg) (hg : cfg.procCopy = true ∨ cfg.noiseCopy = .deep) (st : PState)
+    (hwf : ∀ r ∈ st.held, WFP st.w r) (dns : List Bool) :
+    (getNoisyAll cfg st dns).held = st.held ∧ (getNoisyAll cfg st dns).noise = st.noise ∧
+    pulsesVal (getNoisyAll cfg st dns).w st.held = pulsesVal st.w st.held ∧
+    ∀ r, WFP st.w r → pulseVal (getNoisyAll cfg st dns).w r = pulseVal st.w r := by
+  obtain ⟨h1, h2, h3⟩ := getNoisyAll_frame cfg hg dns st hwf
+  exact ⟨h2, h3, h1.pulsesVal st.held hwf, fun r hr => h1.pulseVal hr⟩
+
+/-- a processor holding one pulse (ideal element 3, no noise element yet) with a 2× amplitude noise -/
+def pstate1 : PState :=
+  { w := { lists := ⟨[[], []]⟩, pulses := [⟨3, 0, 1⟩] }, held := [0], noise := [.amp none 2], rng := [] }
+
+-- non-vacuity: the code as it is satisfies the hypothesis, `pstate1` is well formed
+example : (pcfgCurrent.procCopy = true ∨ pcfgCurrent.noiseCopy = .deep) ∧ ∀ r ∈ pstate1.held, WFP pstate1.w r :=
+  ⟨Or.inl rfl, fun r hr => by
+    simp only [pstate1, List.mem_singleton] at hr; subst hr
+    exact ⟨⟨3, 0, 1⟩, rfl, by decide, by decide⟩⟩
+
+/-- **noisy_fresh_equivalent.** Under the same hypothesis, for every history `dns` on a processor and every further
+noisy evaluation: the VALUE returned (every returned pulse with the contents of its noise lists, or the exception)
+equals the value returned by ANY other processor `fr` — e.g. a freshly constructed one — whose pulses have the same
+values and which carries the same noise objects, provided the noise objects are deterministic (no `RandomNoise`), or
+else the random generator is in the same state.  The value is `noisyVal`: a function of the held pulses' values, the
+noise objects, `device_noise` and the generator's state only. -/
+theorem noisy_fresh_equivalent (cfg : PCfg) (hg : cfg.procCopy = true ∨ cfg.noiseCopy = .deep) (st fr : PState)
+    (hwf : ∀ r ∈ st.held, WFP st.w r) (hwf' : ∀ r ∈ fr.held, WFP fr.w r)
+    (hv : valsOf fr.w fr.held = valsOf st.w st.held) (hn : fr.noise = st.noise) (dns : List Bool) (dn : Bool)
+    (hr : st.noise.all Noise.det = true ∨ fr.rng = (getNoisyAll cfg st dns).rng) :
+    retVal (getNoisy cfg (getNoisyAll cfg st dns) dn).1.w (getNoisy cfg (getNoisyAll cfg st dns) dn).2 =
+      retVal (getNoisy cfg fr dn).1.w (getNoisy cfg fr dn).2 ∧
+    retVal (getNoisy cfg fr dn).1.w (getNoisy cfg fr dn).2 = (noisyVal (valsOf st.w st.held) st.noise dn fr.rng).1 := by
+  obtain ⟨h1, h2, h3⟩ := getNoisyAll_frame cfg hg dns st hwf
+  have hwfh : ∀ r ∈ (getNoisyAll cfg st dns).held, WFP (getNoisyAll cfg st dns).w r := by
+    rw [h2]; exact fun r hr => h1.wfp (hwf r hr)
+  have e1 := (getNoisy_spec cfg hg (getNoisyAll cfg st dns) hwfh dn).1.val
+  have e2 := (getNoisy_spec cfg hg fr hwf' dn).1.val
+  simp only at e1 e2
+  rw [h2, h3, h1.valsOf st.held hwf] at e1
+  rw [hv, hn] at e2
+  refine ⟨?_, e2⟩
+  rw [e1, e2]
+  rcases hr with hr | hr
+  · exact noisyVal_det _ _ _ hr _ _
+  · rw [hr]
+
+/-- **noisy_repeat_equal.** The second evaluation — on the processor as the first one left it — returns the same
+value as the first (deterministic noise objects; with `RandomNoise`: given the same draws). -/
+theorem noisy_repeat_equal (cfg : PCfg) (hg : cfg.procCopy = true ∨ cfg.noiseCopy = .deep) (st : PState)
+    (hwf : ∀ r ∈ st.held, WFP st.w r) (hdet : st.noise.all Noise.det = true) (dn : Bool) :
+    retVal (getNoisy cfg (getNoisy cfg st dn).1 dn).1.w (getNoisy cfg (getNoisy cfg st dn).1 dn).2 =
+      retVal (getNoisy cfg st dn).1.w (getNoisy cfg st dn).2 :=
+  (noisy_fresh_equivalent cfg hg st st hwf hwf rfl rfl [dn] dn (Or.inl hdet)).1
+
+/-- **noisy_result_new.** Every pulse object a noisy evaluation returns was created by the call, and so were its
+`coherent_noise` / `lindblad_noise` lists: the result shares no mutable object with the processor (nor with results of
+earlier calls). -/
+theorem noisy_result_new (cfg : PCfg) (hg : cfg.procCopy = true ∨ cfg.noiseCopy = .deep) (st : PState)
+    (hwf : ∀ r ∈ st.held, WFP st.w r) (dn : Bool) (rs : List Ref) (hrs : (getNoisy cfg st dn).2 = .ok rs) :
+    ∀ x ∈ rs, st.w.pulses.length ≤ x ∧
+      ∃ p, (getNoisy cfg st dn).1.w.pulse? x = some p ∧ st.w.lists.size ≤ p.coh ∧ st.w.lists.size ≤ p.lind :=
+  (getNoisy_spec cfg hg st hwf dn).1.fresh rs hrs
+
+/-- **Counter-example (both copies dropped: the shallow copies share the noise lists).** With `self.pulses` handed
+to `process_noise` and `process_noise` copying each `Pulse` shallowly, `ControlAmpNoise` appends onto the lists the
+processor's pulse holds: the held pulse has 0, then 1, then 2 coherent-noise elements, and the second evaluation
+returns another value than the first.  With either copy alone (as the theorem says) nothing accumulates. -/
+theorem C16_counterexample_noisy_pulses_accumulate :
+    pulsesVal pstate1.w [0] = [some ⟨3, [], []⟩] ∧
+    pulsesVal (getNoisyAll pcfgShared pstate1 [false]).w [0] = [some ⟨3, [6], []⟩] ∧
+    pulsesVal (getNoisyAll pcfgShared pstate1 [false, false]).w [0] = [some ⟨3, [6, 6], []⟩] ∧
+    retVal (getNoisy pcfgShared pstate1 false).1.w (getNoisy pcfgShared pstate1 false).2 = .ok [some ⟨3, [6], []⟩] ∧
+    retVal (getNoisy pcfgShared (getNoisy pcfgShared pstate1 false).1 false).1.w
+      (getNoisy pcfgShared (getNoisy pcfgShared pstate1 false).1 false).2 = .ok [some ⟨3, [6, 6], []⟩] ∧
+    pulsesVal (getNoisyAll ⟨true, .shallow⟩ pstate1 [false, true]).w [0] = [some ⟨3, [], []⟩] ∧
+    pulsesVal (getNoisyAll ⟨false, .deep⟩ pstate1 [false, true]).w [0] = [some ⟨3, [], []⟩] ∧
+    retVal (getNoisy pcfgCurrent (getNoisy pcfgCurrent pstate1 false).1 false).1.w
+      (getNoisy pcfgCurrent (getNoisy pcfgCurrent pstate1 false).1 false).2 = .ok [some ⟨3, [6], []⟩] := by
   decide
 
 /-! ## Pulses as functions of time -/
